@@ -81,6 +81,8 @@ def settings(rng, quick):
     # refused update is still retried with a smaller one)
     out.append(dict(dt_init=5e-3, dt_max=5e-3, adaptive=True, adaptive_window=2, adaptive_time_step_multiplier=0.5, max_solve_retries=3))
     out.append(dict(dt_init=1e-2, dt_max=1e-2, adaptive=True, adaptive_window=1, adaptive_time_step_multiplier=0.25, max_solve_retries=1))
+    # a recording shorter than the largest admissible step (long thermalisation, brief recording): dt_max is still dt_max
+    out.append(dict(dt_init=1e-3, dt_max=1.0, adaptive=True, adaptive_window=2, adaptive_time_step_multiplier=0.25, max_solve_retries=3, solve_time=0.3))
     return out
 
 
@@ -102,7 +104,7 @@ def eval_run(ctx, dev, kw, st, kind, nsteps, with_model=True):
 
     rng = ctx.rng
     sched = schedule_for(rng, nsteps, st["max_solve_retries"], st["adaptive"], kind)
-    opts = runs.options(solve_time=1e9, **st)
+    opts = runs.options(**dict(dict(solve_time=1e9), **st))
     first = None
 
     def fail(key, what, **extra):
